@@ -42,7 +42,7 @@ Fixpoint opt_trace (fixed : bool) (pol : opolicy) (maxf : nat) (w : list Q) (st 
   | [] => []
   | b :: r =>
     let st' := opt_tell st b in
-    L [I (ninit st'); ebool (fit_due st'); e_optl e_told (fit_input sc_id (scal_lin w) fixed pol maxf (yi st'))]
+    L [I (ninit st'); ebool (fit_due st'); e_optl e_told (fit_input sc_id (scal_lin_u w) fixed pol maxf (yi st'))]
       :: opt_trace fixed pol maxf w st' r
   end.
 
